@@ -406,7 +406,7 @@ func genCase(r *lib.Rng, out *lib.Out, ci int) {
 		a, b := net.Pipe()
 		go io.Copy(io.Discard, b)
 		defer b.Close()
-		conn, _ = netmc.NewMinecraftConn(context.Background(), a, proto.ServerBound, 0, time.Second, -1, nil)
+		conn, _ = netmc.NewMinecraftConn(context.Background(), a, proto.ServerBound, 0, time.Minute, -1, nil)
 		conn.SetProtocol(version.Minecraft_1_20_2.Protocol)
 		conn.SetState(state.Play)
 	}
